@@ -89,6 +89,13 @@ CORPUS = ["0x7FFFFFFFFFFFFFFFF", "[NUMBER:abc]", "[TIME:abc]", "[MONEY:12]", "[T
           # passes), used on a later line that has no `=` and holds another number
           "plan 2 = 5\nplan 2 * 3", "q1 = 10\nq1 + 20", "test 1 = 123\ntest 1 + 7\n2 * test 1 # x", "a1 b2 = 4\n10 - a1 b2 + 3",
           "3 rd = 9\n3 rd / 3 + 1", "yıl 2021 = 7\nyıl 2021 + 2021", "x 5% = 2\nx 5% + 5%",
+          # atoms at the edges of their ranges
+          "[TIME:86400]", "[TIME:86399]", "[TIME:86401]", "[TIME:0]", "[TIME:4294967295]", "[TIME:4294967296]", "1 + 1\n[TIME:86400]\n2 + 2",
+          "[NUMBER:1e308]", "[NUMBER:-0]", "[PERCENT:1e400]", "[OPERATOR:]", "[MONTH:0]", "[MONTH:13]", "[MONTH:12] 5",
+          # '=' behind a phrase that a rule, unit or money rewrite folded into one token
+          "2 km + 3 km =", "10 usd to try =", "1 hour 30 minutes =", "5 kg to g =", "3 hours = x", "1 hour = 5", "10% of 50 =", "12:30 EST =",
+          # a zone abbreviation that no time rule consumes, behind a binary operator
+          "5 + cat 4", "x = 3 * EST 4", "3 + EST", "10 usd - get 3 usd", "8 PM - CET 2 hours", "EST 4", "2 * (EST)", "1 - - PST",
           # suffix, detached-sign and percent interplay
           "1,5k", "2,0625k + 1", "- %10", "200 + -%10", "200 - - 10%"]
 
